@@ -2022,6 +2022,9 @@ class Builder:
         if params.min_fidelity_all_at_end is not None:
             # If a min-fidelity constraint is specified, wrap the operation in a loop
             assert params.max_tries is not None
+            # (NV) Free up the communication qubit once, before the loop: commands
+            # that move an existing qubit away must not be repeated on every try.
+            self._build_cmds_free_up_qubit_location(0)
             with self.sdk_new_loop_until_context(params.max_tries) as loop:
                 qubits, result_array = self.sdk_epr_keep(
                     role=EPRRole.CREATE, params=params, reset_results_array=True
@@ -2067,6 +2070,9 @@ class Builder:
         if params.min_fidelity_all_at_end is not None:
             # If a min-fidelity constraint is specified, wrap the operation in a loop
             assert params.max_tries is not None
+            # (NV) Free up the communication qubit once, before the loop: commands
+            # that move an existing qubit away must not be repeated on every try.
+            self._build_cmds_free_up_qubit_location(0)
             with self.sdk_new_loop_until_context(params.max_tries) as loop:
                 qubits, result_array = self.sdk_epr_keep(
                     role=EPRRole.RECV, params=params, reset_results_array=True
